@@ -700,7 +700,11 @@ PROPS = {
               # the iterator's read sampling, file and memtable budgets)
               dict(driver="hist", args=["--nops", "60", "--per-file", "6", "--giant-values",
                                         "--max-iters", "2"],
-                   quick=12, thorough=300)]),
+                   quick=12, thorough=300),
+              # an I/O error is progress of the filesystem too: the worker must survive every
+              # failed call (no assertion tripped on an error path) and every caller must return
+              dict(driver="fault", args=["--nops", "24", "--positions", "60", "--small-caches"],
+                   quick=2, thorough=20)]),
     "C04": dict(
         design=[("MC_RainIter.tla", ["MC_RainIter_small.cfg"], ["MC_RainIter_small.cfg", "MC_RainIter_big.cfg"])],
         switches=[("Bug_NoReseekOnDirectionChange", "MC_RainIter.tla", "MC_RainIter_small.cfg", "CursorOK"),
